@@ -522,19 +522,59 @@ func (x *Exec) pureResult(c *Contract, i int, args []Term, rt types.Type, st *St
 	}
 	heaps := x.reachableHeaps(c.Fn.Signature)
 	var sorts []Sort
-	var all []Term
+	var all, allInit []Term
 	for _, a := range args {
 		sorts = append(sorts, a.Sort)
 		all = append(all, a)
+		allInit = append(allInit, a)
 	}
+	changed, dirty := false, false
 	for _, h := range heaps {
 		t := x.heap(st, h)
+		i0 := x.heap(&State{heaps: map[string]Term{}}, h)
 		sorts = append(sorts, h.sort)
 		all = append(all, t)
+		allInit = append(allInit, i0)
+		if t.S != i0.S {
+			changed = true
+		}
+		if st.dirty[h.name] {
+			dirty = true
+		}
 	}
 	name := fmt.Sprintf("pure_%s_%d", mangle(shortFn(c.Fn)), i)
 	vc.declareFun(name, sorts, vc.sortOf(rt))
 	r := app(vc.sortOf(rt), name, all...)
+	if changed && !dirty && vc.noName == 0 && x.top0.S != "" {
+		// allocation-insensitivity (as in pureCall): while no object that existed at unit entry has
+		// been written, such objects refer to entry objects only; applied to arguments that denote
+		// entry objects the function therefore reads the entry heaps.
+		var ptypes []types.Type
+		sig := c.Fn.Signature
+		if sig.Recv() != nil {
+			ptypes = append(ptypes, sig.Recv().Type())
+		}
+		for k := 0; k < sig.Params().Len(); k++ {
+			ptypes = append(ptypes, sig.Params().At(k).Type())
+		}
+		var argsOld Term = tTrue
+		for k, a := range args {
+			if k >= len(ptypes) {
+				break
+			}
+			switch underlying(ptypes[k]).(type) {
+			case *types.Pointer, *types.Map:
+				argsOld = and(argsOld, x.oldRef(a))
+			case *types.Slice:
+				argsOld = and(argsOld, le(sArr(a), x.top0))
+			case *types.Interface:
+				argsOld = and(argsOld, x.refsOld(a, ptypes[k], 0))
+			case *types.Struct:
+				argsOld = and(argsOld, x.refsOld(a, ptypes[k], 0))
+			}
+		}
+		r = ite(argsOld, app(vc.sortOf(rt), name, allInit...), r)
+	}
 	if vc.noName == 0 {
 		r = vc.name("pr", r)
 		x.wf(st, r, rt)
@@ -855,8 +895,7 @@ func (x *Exec) pureCall(fr *Frame, st *State, full string, sig *types.Signature,
 				case *types.Slice:
 					argsOld = and(argsOld, le(sArr(a), x.top0))
 				case *types.Interface:
-					vc.declareFun("isref", []Sort{SInt}, SBool)
-					argsOld = and(argsOld, implies(app(SBool, "isref", iType(a)), le(iVal(a), x.top0)))
+					argsOld = and(argsOld, x.refsOld(a, ptypes[i], 0))
 				case *types.Struct:
 					argsOld = and(argsOld, x.refsOld(a, ptypes[i], 0))
 				}
@@ -958,7 +997,7 @@ var pureNames = map[string]bool{
 	"github.com/go-openapi/swag.ContainsStringsCI": true, "github.com/go-openapi/swag.ContainsStrings": true,
 	"github.com/go-openapi/inflect.Pluralize": true, "github.com/go-openapi/inflect.Singularize": true,
 	"reflect.DeepEqual": true, "errors.Is": true, "github.com/go-openapi/swag.IsZero": true,
-	"os.Getenv": true,
+	"os.Getenv": true, "(reflect.StructTag).Get": true,
 }
 
 func (x *Exec) pureByName(full string) bool { return pureNames[full] }
@@ -1080,6 +1119,9 @@ func (x *Exec) refsOld(v Term, t types.Type, depth int) Term {
 	case *types.Slice:
 		return le(sArr(v), x.top0)
 	case *types.Interface:
+		// a reference carried by the interface value is old. A10: a struct or slice carried BY VALUE
+		// in an interface is taken to hold old references only (tracking it with a predicate made
+		// the quantifier-heavy diff proofs unstable; see DESIGN.md section 12)
 		x.vc.declareFun("isref", []Sort{SInt}, SBool)
 		return implies(app(SBool, "isref", iType(v)), le(iVal(v), x.top0))
 	case *types.Struct:
